@@ -10,11 +10,12 @@
 (***************************************************************************)
 EXTENDS Naturals, Sequences, TLC, Json
 
-CONSTANTS Kind,      \* "plain" (SHA-2, SHA-3), "shake", "blake"
+CONSTANTS Kind,      \* "plain" (SHA-2, SHA-3), "shake", "blake", "sha2" (SHA-2 with the counter hook)
           Depth,     \* calls per history
           NSlots,    \* instances
           LenC,      \* symbolic input-length classes
-          OutC       \* symbolic output-length classes (SHAKE)
+          OutC,      \* symbolic output-length classes (SHAKE)
+          SkipC      \* symbolic targets of the counter advance (guarded hook verif_skip_blocks; kind "sha2" only)
 
 VARIABLES mode, hist
 vars == <<mode, hist>>
@@ -29,10 +30,12 @@ Update(s, c) == mode[s] = "in" /\ Do(Call("update", s, c), mode)
 Reset(s) == mode[s] # "none" /\ Do(Call("reset", s, "-"), [mode EXCEPT ![s] = "in"])
 Clone(s, t) == Kind # "blake" /\ mode[s] # "none" /\ s # t /\ Do([op |-> "clone", h |-> s, arg |-> "-", h2 |-> t], [mode EXCEPT ![t] = mode[s]])
 \* SHA-2 / SHA-3: every finalization resets
-FinPlain(s, f) == Kind = "plain" /\ mode[s] = "in" /\ Do(Call(f, s, "-"), mode)
+FinPlain(s, f) == Kind \in {"plain", "sha2"} /\ mode[s] = "in" /\ Do(Call(f, s, "-"), mode)
 \* BLAKE2s: finalize_write leaves the instance unusable until reset
 FinBlake(s) == Kind = "blake" /\ mode[s] = "in" /\ Do(Call("finalize_write", s, "-"), [mode EXCEPT ![s] = "dead"])
 FinBlakeR(s) == Kind = "blake" /\ mode[s] = "in" /\ Do(Call("finalize_reset_write", s, "-"), mode)
+\* the hook moves the count of processed bytes to just below a power of two; the instance stays in absorbing mode
+Skip(s, c) == Kind = "sha2" /\ mode[s] = "in" /\ Do(Call("skip", s, c), mode)
 Flip(s) == Kind = "shake" /\ mode[s] = "in" /\ Do(Call("flip", s, "-"), [mode EXCEPT ![s] = "out"])
 Extract(s, c) == Kind = "shake" /\ mode[s] = "out" /\ Do(Call("extract", s, c), mode)
 FlipExtract(s, c) == Kind = "shake" /\ mode[s] = "in" /\ Do(Call("flip_extract", s, c), [mode EXCEPT ![s] = "out"])
@@ -41,6 +44,7 @@ FlipExtractReset(s, c) == Kind = "shake" /\ mode[s] = "in" /\ Do(Call("flip_extr
 Next == \E s \in Slots :
           \/ \E c \in LenC : Update(s, c)
           \/ Reset(s)
+          \/ \E c \in SkipC : Skip(s, c)
           \/ \E t \in Slots : Clone(s, t)
           \/ \E f \in {"digest", "finalize_reset_write"} : FinPlain(s, f)
           \/ FinBlake(s) \/ FinBlakeR(s)
@@ -54,5 +58,5 @@ ModeOk == \A s \in Slots : mode[s] \in {"none", "in", "out", "dead"}
 KindOk == /\ (Kind # "shake" => \A s \in Slots : mode[s] # "out")
           /\ (Kind # "blake" => \A s \in Slots : mode[s] # "dead")
 \* emit each complete history once (hist is part of the state, so histories are distinct states)
-Emit == Len(hist) = Depth => PrintT(<<"SCRIPT", ToJson(hist)>>)
+Emit == (Len(hist) = Depth /\ (Kind = "sha2" => \E i \in 1..Depth : hist[i].op = "skip")) => PrintT(<<"SCRIPT", ToJson(hist)>>)
 =============================================================================
